@@ -45,6 +45,9 @@ pub fn lines() -> Vec<(String, Row)> {
         put!("g", g, |x: i64| x.to_string(), RVal::Int);
         put!("v", v, |x: i64| x.to_string(), RVal::Int);
         put!("r", r, |x: f64| format!("{:?}", x), RVal::Real);
+        // computed aggregate arguments (the same f64 product the engine forms)
+        row.insert("r*0.001".into(), r.map(|x| RVal::Real(x * 0.001)).unwrap_or(RVal::Null));
+        row.insert("r*0.004".into(), r.map(|x| RVal::Real(x * 0.004)).unwrap_or(RVal::Null));
         put!("s", s, |x: &str| format!("{:?}", x), |x: &str| RVal::Text(x.to_string()));
         put!("b", b, |x: bool| x.to_string(), RVal::Bool);
         put!("ts", ts, |x: &str| format!("{:?}", x), |x: &str| RVal::Ts(parse_ts(x).unwrap()));
@@ -104,6 +107,10 @@ pub fn items() -> Vec<Item> {
         it("MAX(v) + 1", "MAX+1", "v", false),
         it("COUNT(v) + 100", "COUNT+100", "v", true),
         it("10 - COUNT(DISTINCT v)", "10-COUNT_DISTINCT", "v", true),
+        // arguments that differ although their printed text (REAL literals with two decimals) is alike
+        it("SUM(r * 0.001)", "SUM", "r*0.001", false),
+        it("SUM(r * 0.004)", "SUM", "r*0.004", false),
+        it("MAX(r * 0.004)", "MAX", "r*0.004", false),
     ]
 }
 
@@ -576,7 +583,7 @@ fn statements(thorough: bool) -> Vec<Stmt> {
                     continue;
                 }
                 // the wrapped counts (items 29, 30) are paired with a reduced partner set in the quick tier
-                if !thorough && (a >= 29 || bq >= 29) && ![0usize, 3, 7, 13].contains(&a.min(bq)) {
+                if !thorough && (a >= 29 || bq >= 29) && ![0usize, 3, 7, 13].contains(&a.min(bq)) && !(a >= 31 && bq >= 31) {
                     continue;
                 }
                 let s = Stmt { distinct: false, items: vec![a, bq], group_by: *g, filter: *f, having: *h };
@@ -626,6 +633,44 @@ fn statements(thorough: bool) -> Vec<Stmt> {
     out
 }
 
+/// the batch executor over the same lines in one file and split over two files (the first without a final line break)
+/// must print the same table
+fn file_split_case(tables: &Tables, st: &Stmt, seq: &[u8]) -> Vec<Failure> {
+    let al = lines();
+    let text = text_of(st);
+    let parsed = match sut::parse(&text) {
+        Ok(p) => p,
+        Err(_) => return vec![],
+    };
+    let ls: Vec<&str> = seq.iter().map(|i| al[*i as usize].0.as_str()).collect();
+    let one = sut::files_from(&ls, &[ls.len()]);
+    let base = match sut::run_files(tables, &parsed, &[one[0].as_slice()], sut::FileRunOpts::default()) {
+        Outcome::Ok(fr) if fr.result.is_ok() => fr.printed.clone(),
+        _ => return vec![],
+    };
+    let mut out = Vec::new();
+    for cut in 1..ls.len() {
+        let two = sut::files_from(&ls, &[cut, ls.len() - cut]);
+        let first = &two[0][..two[0].len() - 1];
+        let got = match sut::run_files(tables, &parsed, &[first, two[1].as_slice()], sut::FileRunOpts::default()) {
+            Outcome::Ok(fr) if fr.result.is_ok() => Some(fr.printed.clone()),
+            _ => None,
+        };
+        if got.as_ref() != Some(&base) {
+            out.push(fail(
+                "files:table-differs-when-input-is-split".into(),
+                format!("`{}`: the lines {:?} in one file print {:?}; split after line {} into two files (the first without final line break) they print {:?}", text, seq, base, cut, got),
+                json!({"distinct": st.distinct, "items": st.items, "group_by": st.group_by, "filter": st.filter, "having": st.having, "seq": seq, "statement": text, "driver": "files", "cut": cut}),
+                json!(base),
+                json!(got),
+                seq.len() as u64,
+            ));
+            break;
+        }
+    }
+    out
+}
+
 pub fn run(ctx: &Ctx) -> i32 {
     let col = Collector::new();
     let tables = sut::make_tables(DEF).unwrap();
@@ -640,6 +685,12 @@ pub fn run(ctx: &Ctx) -> i32 {
             let seq = seq_decode(idx, k, maxlen);
             let (fs, nt, okey) = judge(&tables, st, &seq);
             col.eval(1);
+            if st.items.len() == 1 && st.group_by == 1 && st.filter == 0 && st.having == 0 && !st.distinct && seq.len() >= 2 {
+                col.eval(seq.len() as u64);
+                for f in file_split_case(&tables, st, &seq) {
+                    col.fail(f);
+                }
+            }
             if nt {
                 col.nontrivial(h64(&(si, idx)));
             }
@@ -670,5 +721,8 @@ pub fn replay(case: &J) -> Vec<Failure> {
     let tables = sut::make_tables(DEF).unwrap();
     let st = Stmt { distinct: case["distinct"].as_bool().unwrap_or(false), items: case["items"].as_array().unwrap().iter().map(|x| x.as_u64().unwrap() as usize).collect(), group_by: case["group_by"].as_u64().unwrap() as usize, filter: case["filter"].as_u64().unwrap() as usize, having: case["having"].as_u64().unwrap() as usize };
     let seq: Vec<u8> = case["seq"].as_array().unwrap().iter().map(|x| x.as_u64().unwrap() as u8).collect();
+    if case["driver"].as_str() == Some("files") {
+        return file_split_case(&tables, &st, &seq);
+    }
     judge(&tables, &st, &seq).0
 }
